@@ -299,18 +299,18 @@ fn tiny_strategy() -> BoxedStrategy<Case> {
 
 fn strategy(lo: usize, hi: usize, extra: usize) -> BoxedStrategy<Case> {
     prop_oneof![
-        cfg_among(&SK, 512, no_mult)
+        cfg_among(&SK, 1100, no_mult)
             .prop_flat_map(move |cfg| {
                 let n = cfg.n();
                 (Just(cfg), prop_oneof![3 => stream(Domain::PositiveGrid, lo, (4 * n + 50).max(hi.min(400)).max(lo) + extra), 1 => stream(Domain::Positive, lo, (4 * n + 50).max(hi.min(400)).max(lo) + extra)])
             })
-            .prop_map(|(cfg, s)| Case { cfg, scalar: true, xs: xs(&s.vals), bars: vec![], stride: 0 }),
-        cfg_among(&BK, 512, no_mult)
+            .prop_map(|(cfg, s)| { let st = if cfg.n() > 64 { cfg.n() / 24 } else { 0 }; Case { cfg, scalar: true, xs: xs(&s.vals), bars: vec![], stride: st } }),
+        cfg_among(&BK, 1100, no_mult)
             .prop_flat_map(move |cfg| {
                 let n = cfg.n();
                 (Just(cfg), prop_oneof![3 => bar_stream(true, lo, (4 * n + 50).max(hi.min(400)).max(lo) + extra), 1 => bar_stream(false, lo, (4 * n + 50).max(hi.min(400)).max(lo) + extra)])
             })
-            .prop_map(|(cfg, s)| Case { cfg, scalar: false, xs: vec![], bars: s.bars, stride: 0 }),
+            .prop_map(|(cfg, s)| { let st = if cfg.n() > 64 { cfg.n() / 24 } else { 0 }; Case { cfg, scalar: false, xs: vec![], bars: s.bars, stride: st } }),
     ]
     .boxed()
 }
@@ -355,8 +355,57 @@ pub fn run(g: &mut Global) {
     g.random("long", g.tier.pick(48, 600), &|| strategy(5000, 10000, 0), &check);
     g.random("tiny_units", g.tier.pick(8000, 60000), &tiny_strategy, &check);
     g.random("huge_units", g.tier.pick(6000, 40000), &huge_strategy, &check);
+    // windows of 1024 slots and more (powers of two and their neighbours), the window references every
+    // n/24-th step
+    let lp: Vec<(Kind, bool)> = vec![(Kind::Roc, true), (Kind::FastStoch, true), (Kind::FastStoch, false), (Kind::Er, true), (Kind::Rsi, true), (Kind::Ppo, true), (Kind::Mfi, false), (Kind::Cci, false), (Kind::Obv, false)];
+    let nlp = lp.len() as u64;
+    let seedl = g.seed;
+    g.exhaustive(
+        "large_periods",
+        nlp * 5,
+        &move |i| {
+            let (kind, scalar) = lp[(i % nlp) as usize];
+            let n = [1024usize, 1025, 2048, 4096, 1500][(i / nlp) as usize % 5];
+            let n = if matches!(kind, Kind::Er | Kind::Cci | Kind::Mfi) { n.min(2048) } else { n };
+            let mut gen = crate::props::c13::Gen::new(seedl ^ (i + 3).wrapping_mul(0x9E3779B97F4A7C15), [0usize, 3, 1][(i % 3) as usize], 37.0, 7);
+            let len = 2 * n + 300;
+            let cfg = crate::hist::cfg_small(kind, n);
+            if scalar {
+                Case { cfg, scalar: true, xs: (0..len).map(|_| X(gen.next())).collect(), bars: vec![], stride: n / 24 }
+            } else {
+                Case { cfg, scalar: false, xs: vec![], bars: (0..len).map(|_| gen.bar()).collect(), stride: n / 24 }
+            }
+        },
+        &check,
+    );
+    // closes on neighbouring doubles (moves of exactly one ulp) with real volume: direction tests must be exact
+    g.exhaustive(
+        "one_ulp_moves",
+        4 * 3 * 64,
+        &move |i| {
+            let kind = [Kind::Obv, Kind::Mfi, Kind::Rsi, Kind::FastStoch][(i % 4) as usize];
+            let base = [101.25f64, 0.3, 6.02e23][((i / 4) % 3) as usize];
+            let mut st = seedl ^ (i + 11).wrapping_mul(0xD6E8FEB86659FD93);
+            let mut k: i64 = 8;
+            let bars: Vec<RawBar> = (0..40)
+                .map(|_| {
+                    let u = unit(&mut st);
+                    k += [-1i64, 0, 1, 1, -1, 2, -2, 0][(u * 8.0) as usize];
+                    let c = f64::from_bits((base.to_bits() as i64 + k) as u64);
+                    RawBar { o: c, h: c, l: c, c, v: 100.0 + (u * 900.0).round() }
+                })
+                .collect();
+            let cfg = crate::hist::cfg_small(kind, 3);
+            if kind.scalar() && i % 2 == 0 {
+                Case { cfg, scalar: true, xs: bars.iter().map(|b| X(b.c)).collect(), bars: vec![], stride: 0 }
+            } else {
+                Case { cfg, scalar: false, xs: vec![], bars, stride: 0 }
+            }
+        },
+        &check,
+    );
     // sleep and wake (see hist::sleep_wake_bars): RSI, SLOW_STOCH, PPO carry exponential averages
-    let seed = g.seed;
+    let seed = seedl;
     let swk: Vec<(Kind, usize, bool)> = vec![(Kind::Rsi, 2, true), (Kind::Rsi, 3, true), (Kind::Rsi, 14, true), (Kind::SlowStoch, 3, false), (Kind::SlowStoch, 5, true), (Kind::Ppo, 3, true), (Kind::Mfi, 3, false), (Kind::Cci, 5, false)];
     let nsw = swk.len() as u64;
     g.exhaustive(
